@@ -49,7 +49,7 @@ CHECKS = {
          "DESIGN.md §4 C11"),
  "C17": ("exploration",
          "structural-invariant monitor with a side table: payload strings identify the intended target of every metadata reference; reference allocator for IDs; canonical comparison by LLVM; identity census on clang -g graphs",
-         "300 (quick) / 8000 (thorough) generated graphs (sparse IDs, cycles, forward refs, inline nodes, attachments, repeated named metadata) on the text side and the API side, plus the clang -g corpus and metadata atoms.",
+         "300 (quick) / 8000 (thorough) generated graphs (sparse IDs, cycles, forward refs, inline nodes, attachments, repeated named metadata) on the text side and the API side, plus the clang -g corpus and metadata atoms; conservation of `!N` references (text against graph edges, input and printed side), of `distinct`, and per kind of the nodes spelled out inline.",
          "Specialised nodes are covered by the corpus and atoms (identity census), tuples by the generated graphs.",
          "DESIGN.md §4 C17"),
  "C02": ("exploration",
@@ -59,7 +59,7 @@ CHECKS = {
          "DESIGN.md §4 C02"),
  "C04": ("exploration",
          "structural-invariant monitor: reflection census over the object graph returned by the parser at the quiescent point (after Parse returns)",
-         "The identity census walks every reachable reference slot of every accepted module and checks pointer identity with the listed definition (module lists, enclosing function, blockaddress function, TypeDefs by name) and parent links; counts of slots checked by kind, forward and cyclic references are reported.",
+         "The identity census walks every reachable reference slot of every accepted module and checks pointer identity with the listed definition (module lists, enclosing function, blockaddress function, TypeDefs by name) and parent links; counts of slots checked by kind, forward and cyclic references are reported. Conservation between input and printed text catches bindings to another object of the right kind: blockaddress, type-name, global-name and metadata tokens per module, uses of every local per function, string and empty array constants typed by a name against the TypeDefs object.",
          "Sees what is reachable through exported fields; binding to a different definition of the right kind is left to C01's canonical comparison.",
          "DESIGN.md §4 C04"),
  "C09": ("exploration",
@@ -69,12 +69,12 @@ CHECKS = {
          "DESIGN.md §4 C09"),
  "C12": ("exploration",
          "differential monitor under the Go race detector: repeated, cross-process, cross-entry-point and concurrent parses compared by text and structural digest; Visit hooks record map-iteration orders actually seen; canary over exported singletons",
-         "Each (input, fresh process) pair: R sequential parses, five entry points, parses after unrelated activity and 8-32 concurrent parses of different inputs must agree on accept/reject, String() and structural digest; digests also agree across 3-8 processes; hook events show that the translator's map loops ran in >=2 different orders for the counted inputs.",
+         "Each (input, fresh process) pair: R sequential parses, five entry points, parses after unrelated activity, 8-32 concurrent parses of different inputs and a crowded repeat (16 goroutines on GOMAXPROCS 2, three parses each, the translator yielding inside its loops) must agree on accept/reject, String() and structural digest; digests also agree across 3-8 processes; hook events show that the translator's map loops ran in >=2 different orders for the counted inputs. Cold-start cases: the first parses of a fresh process are 16 concurrent ones, compared with sequential parses made afterwards.",
          "Map orders are observed, not forced; error messages are not compared, only accept/reject.",
          "DESIGN.md §4 C12"),
  "C13": ("exploration",
          "Go race detector over concurrent printers of one shared module with PRNG yields at hook sites, plus twin-text oracle (every returned text must equal a sequential text)",
-         "Three scenarios (whole-module printers from both states; all operations on an already printed module; all operations on a never-printed module), N in {2,4,16}, GOMAXPROCS in {2,16}; rounds count only if >=2 printers were active at once; race reports keyed by entry-point pair and writing function.",
+         "Three scenarios (whole-module printers from both states; all operations on an already printed module; all operations on a never-printed module), N in {2,4,16}, GOMAXPROCS in {2,16}; rounds count only if >=2 printers were active at once; race reports keyed by entry-point pair and writing function. Every list of every module has spare capacity (appends by a printer land in shared storage); printers that never return are decided by the goroutine dump (all waiting for locks).",
          "Reports exist only for interleavings that occurred; Succs() is outside the property's operation set. Open findings: per-function/per-global printers racing with the FIRST whole-module print (KNOWN_FINDINGS.txt).",
          "DESIGN.md §4 C13"),
  "C14": ("exploration",
@@ -99,7 +99,7 @@ CHECKS = {
          "DESIGN.md §4 C18"),
  "C19": ("fault_enumeration",
          "fault-injecting io.Writer monitor: WriteTo is run against a writer failing at every byte offset; (n, err, bytes, writes-after-failure) judged against String()",
-         "Every module of the corpus is written to instrumented writers that fail (sentinel error / short write) after exactly k bytes, for every k in [0,len(String())] on modules up to 6000 bytes and 400 sampled offsets beyond; the oracle compares the returned count, error identity, delivered prefix and post-failure writes with the contract. Exhaustive over offsets per module, not over modules.",
+         "Every module of the corpus is written to instrumented writers that fail (sentinel error, short write with and without an error, errors of real destinations, errors of uncomparable types, writers with WriteString/ReadFrom) after exactly k bytes, for every k in [0,len(String())] on modules up to 6000 bytes and 400 sampled offsets beyond; the oracle compares the returned count, error identity, delivered prefix and post-failure writes with the contract; a WriteTo that never returns (waiting for a lock nobody can release) is decided by the state of the process. Exhaustive over offsets per module, not over modules.",
          "Trusts Go's fmt to call Write once per print call; modules come from the corpus (atoms, repo testdata, llvm-stress), so printer paths outside it are not driven.",
          "DESIGN.md §4 C19"),
  "C20": ("exploration",
